@@ -219,6 +219,17 @@ func (m *Machine) strEq(x, y value) *Term {
 				if pa.args[i].kind != pb.args[i].kind || pa.args[i].w != pb.args[i].w {
 					panic(pathAbort{"comparison of renderings of different operand types"})
 				}
+				if pa.args[i].kind == KFP {
+					// two renderings of floats are equal texts when the
+					// values are equal OR both are NaN (fp.eq(x, x) is false
+					// for NaN, "NaN" == "NaN" is not)
+					x, y := pa.args[i], pb.args[i]
+					if x == y {
+						continue
+					}
+					res = st.And(res, st.Or(st.Eq(x, y), st.And(st.FIsNaN(x), st.FIsNaN(y))))
+					continue
+				}
 				res = st.And(res, st.Eq(pa.args[i], pb.args[i]))
 			}
 			a, b = a[1:], b[1:]
